@@ -180,7 +180,11 @@ impl Filt {
 }
 
 fn search_key(script: &Script, st: ST, f: &Filt, group: bool) -> SearchKey {
-    SearchKey { script: script.clone().into(), script_type: st.rpc(), filter: f.to_rpc(), with_data: Some(true), group_by_transaction: if group { Some(true) } else { None } }
+    search_key_wd(script, st, f, group, Some(true))
+}
+
+fn search_key_wd(script: &Script, st: ST, f: &Filt, group: bool, with_data: Option<bool>) -> SearchKey {
+    SearchKey { script: script.clone().into(), script_type: st.rpc(), filter: f.to_rpc(), with_data, group_by_transaction: if group { Some(true) } else { None } }
 }
 
 /// does a decoded entry match the search key: same code hash and hash type, args start with the searched args
@@ -485,9 +489,12 @@ fn one_store(cfg: &RunCfg, out: &Out, k: u64, queries: u64) {
         let limit = *rng.pick(&[1u32, 2, 3, 5, 7, 50, 100_000]);
         let is_cells = rng.chance(1, 2);
         let f = gen_filter(&mut rng, &d, &scripts, st, !is_cells);
+        // with_data: absent means true (README); false must return the same cells, only without their data
+        let with_data: Option<bool> = *rng.pick(&[Some(true), Some(true), None, Some(false), Some(false)]);
+        let wd = with_data.unwrap_or(true);
         let qdesc = json!({"store_seed": seed, "query": qn, "what": if is_cells { "cells" } else { "transactions" }, "script_type": format!("{:?}", st), "search_args": hex(&script.args().raw_data()),
-            "code_hash": hex(&script.code_hash().as_slice()[..4]), "hash_type": hex(script.hash_type().as_slice()), "search_kind": kind, "limit": limit, "filter": format!("{:?}", f).chars().take(300).collect::<String>()});
-        let cell_key = |what: &str, order: &str| format!("{}|{}|{}|{}|{}", what, order, f.kinds(), if limit >= 50 { "one-page" } else { "paged" }, kind);
+            "code_hash": hex(&script.code_hash().as_slice()[..4]), "hash_type": hex(script.hash_type().as_slice()), "search_kind": kind, "limit": limit, "with_data": format!("{:?}", with_data), "filter": format!("{:?}", f).chars().take(300).collect::<String>()});
+        let cell_key = |what: &str, order: &str| format!("{}|{}|{}|{}|{}{}", what, order, f.kinds(), if limit >= 50 { "one-page" } else { "paged" }, kind, if wd || what != "cells" { "" } else { "|no-data" });
         let kp_cell = if st == ST::Lock { kp::CELL_LOCK } else { kp::CELL_TYPE };
         let kp_tx = if st == ST::Lock { kp::TX_LOCK } else { kp::TX_TYPE };
         if is_cells {
@@ -496,7 +503,7 @@ fn one_store(cfg: &RunCfg, out: &Out, k: u64, queries: u64) {
             under_prefix.sort_by(|a, b| a.key.cmp(&b.key));
             let expected: Vec<&CellEntry> = under_prefix.iter().cloned().filter(|c| key_matches(&c.script_raw, &search_raw) && cell_passes(c, st, &f)).collect();
             let aliased: Vec<&CellEntry> = under_prefix.iter().cloned().filter(|c| !key_matches(&c.script_raw, &search_raw)).collect();
-            let skf = || search_key(&script, st, &f, false);
+            let skf = || search_key_wd(&script, st, &f, false, with_data);
             let res = guarded(|| (walk_cells(&rpc, &skf, true, limit), walk_cells(&rpc, &skf, false, limit), rpc.get_cells_capacity(skf())));
             out.eval(3);
             let (asc, desc, cap) = match res {
@@ -516,9 +523,15 @@ fn one_store(cfg: &RunCfg, out: &Out, k: u64, queries: u64) {
             };
             out.cell(&cell_key("cells", "asc"));
             out.cell(&cell_key("cells", "desc"));
-            let exp_recs: Vec<CellRec> = expected.iter().map(|c| c.rec.clone()).collect();
+            // without data the records are compared modulo the data field, and no data may be returned
+            let norm = |c: &CellRec| if wd { c.clone() } else { CellRec { data: String::new(), ..c.clone() } };
+            if !wd && asc.iter().chain(desc.iter()).any(|c| !c.data.is_empty()) {
+                viol(out, k, "C13.R3", "cells-data-returned-although-with-data-is-false", &qdesc, json!({}));
+            }
+            let exp_recs: Vec<CellRec> = expected.iter().map(|c| norm(&c.rec)).collect();
             // R6: entries that do not match the search key (aliases of shorter-args scripts)
-            let alias_recs: HashSet<&CellRec> = aliased.iter().map(|c| &c.rec).collect();
+            let alias_owned: Vec<CellRec> = aliased.iter().map(|c| norm(&c.rec)).collect();
+            let alias_recs: HashSet<&CellRec> = alias_owned.iter().collect();
             let got_alias = asc.iter().filter(|c| alias_recs.contains(c)).count();
             if got_alias > 0 {
                 viol(out, k, "C13.R6", "entry-does-not-match-search-key|shorter-args-alias|cells", &qdesc, json!({"alias_entries_returned": got_alias, "example": format!("{:?}", asc.iter().find(|c| alias_recs.contains(c)))}));
